@@ -1,7 +1,7 @@
 (* TieStart.v -- start-line functions of src/lib.rs as translated on this run (Generated/Lib.v)
    = the hand-written definitions of Model.v. *)
 From Coq Require Import List NArith Bool Lia ZifyBool ZifyN.
-From HV Require Import Cursor Scan Model Imp.
+From HV Require Import Cursor Scan Model Imp ImpLib.
 From HV.Generated Require Import Lib.
 From HV.Proofs Require Import TieBase.
 Import ListNotations.
@@ -72,7 +72,7 @@ Proof.
   destruct r as [|b r]; [reflexivity|]. cbn [rest pre tokrev].
   destruct (c_method E b); cbn [negb]; [|reflexivity].
   specialize (HL fuel (mkcur p (b :: t) r)). unfold to_out in HL.
-  destruct (iloop _ _ _ _ _) as [a l' c'|l'|e l'|f0|x l' c']; try exact HL.
+  destruct (iloop _ _ _ _ _) as [a l' c'|l'|e l'|f0 l'|x l' c']; try exact HL.
   destruct x; exact HL.
 Qed.
 
@@ -144,7 +144,7 @@ Proof.
         * rewrite IH. rewrite orb_false_r. reflexivity. }
   imp_unfold. unfold set_g_parse_reason_v_seen_obs_text.
   specialize (HL fuel false c). unfold to_out in HL.
-  destruct (iloop _ _ _ _ _) as [a l' c'|l'|e l'|f0|x l' c']; try exact HL.
+  destruct (iloop _ _ _ _ _) as [a l' c'|l'|e l'|f0 l'|x l' c']; try exact HL.
   destruct x; exact HL.
 Qed.
 
